@@ -186,6 +186,7 @@ def tlc(module, cfg=None, env=None, workers=1, timeout=900, metadir=None, simula
     res['distinct'] = int(m.group(2)) if m else 0
     m = re.search(r'The depth of the complete state graph search is (\d+)', out)
     res['depth'] = int(m.group(1)) if m else 0
+    res['contracts'] = re.findall(r'<<"CONTRACT", "(\w+)", (\d+)>>', out)
     mm = re.findall(r'<<"MATCHED", (\d+), (\d+)>>', out)
     if mm:
         res['matched'], res['total'] = int(mm[-1][0]), int(mm[-1][1])
@@ -393,7 +394,7 @@ def validate_batch(ev, prop, module, lines, signature_fn, name, cfg=None, timeou
         bad_line = bad_exec[bad_idx]
         ev.add_trace_run(r, k, acc)
         try:
-            sig = signature_fn(json.loads(bad_line), bad_exec, bad_idx)
+            sig = signature_fn(json.loads(bad_line), bad_exec, bad_idx, r)
         except Exception as ex:  # noqa
             sig = 'unparsable:' + str(ex)
         if r['invariant_violated']:
@@ -403,6 +404,10 @@ def validate_batch(ev, prop, module, lines, signature_fn, name, cfg=None, timeou
             if f['signature'] not in [x['signature'] for x in ev.known]:
                 known_finding(prop, '%s [%s]' % (f['what'], f['signature']))
                 ev.known.append({'signature': f['signature'], 'what': f['what'], 'example': bad_line[:300]})
+            start += k + 1
+            continue
+        if os.environ.get('VERIF_COLLECT'):  # exploration aid (never used by registered commands): list and go on
+            log('[collect] %s :: %s' % (sig, bad_line[:260]))
             start += k + 1
             continue
         # confirm in isolation
@@ -416,7 +421,7 @@ def validate_batch(ev, prop, module, lines, signature_fn, name, cfg=None, timeou
         rp = keep_replay(prop, name, solo)
         ev.violations += 1
         ev.sample({'violating_line': bad_line, 'signature': sig, 'replay': rp})
-        desc = describe_fn(json.loads(bad_line), bad_exec, bad_idx) if describe_fn else ''
+        desc = describe_fn(json.loads(bad_line), bad_exec, bad_idx, r) if describe_fn else ''
         violation(prop, rp, 'spec %s rejects line %d of execution %d of %s: %s  signature=%s %s' % (
             module, bad_idx + 1, start + k, name, bad_line[:400], sig, desc))
         return 1
